@@ -178,7 +178,7 @@ class DisplacementFieldTransform(DenseVectorFieldTransform):
             raise AssertionError(f"{type(self).__name__}.data() 'params' must be set first")
         grid = self.grid()
         if not callable(params):
-            grid = self.grid().resize(self.data_shape[:1:-1])
+            grid = self.grid().resize(self.data_shape[:0:-1])
         flow = flow.to(self.device)
         flow = flow.sample(grid)
         flow = flow.axes(grid.axes())
